@@ -34,6 +34,10 @@ PROPS = {
                     "REDUCED: tuple members (define_open!) and BitAnd for arities > 1 (bitset_and!) and the bit-set members (define_bit_join!) are macro-generated and not under contract; the one-member BitAnd and every non-macro member are",
                     "N8: LendJoin's GAT Type<'next> is collapsed to a plain associated type; the `&mut Storage` lending member is therefore checked as free functions with the same clauses",
                     "JoinLendIter::for_each (closure capturing &mut) and the `&mut Storage` non-lending Join member (SharedGetMutOnly raw sharing) are not under contract"]),
+    'C16': dict(units=['changeset'], witness=None,
+                assumptions=STORAGE_ASSUME + ["the inner DenseVecStorage<T> is an opaque implementor of the trait-level storage contract here; its conformance is the bounded Kani part (C04 kinds)",
+                                              "`T: AddAssign` is modelled by a spec function add_spec(old, new) (arbitrary, possibly non-commutative); `a += b` is desugared to AddAssign::add_assign(&mut a, b) (N16)",
+                                              "FromIterator/Extend loops over a generic IntoIterator are not under contract (they call add once per pair in iteration order); the `&mut ChangeSet` non-lending Join member (SharedGetMutOnly) is not under contract"]),
     'C05': dict(units=['world'], witness='alloc',
                 assumptions=[HEADROOM, "WorldExt::delete_components is an ASSUMED contract (its body iterates shred's MetaTable<dyn AnyStorage>): it removes exactly the given indices from every listed storage and touches nothing else",
                              "World accessors (entities_mut, write_resource) are stubs with the documented shred behaviour; LazyUpdate::maintain is unconstrained"]),
@@ -42,6 +46,10 @@ PROPS = {
 TB = "Trusted: prelude stubs for hibitset / NonZeroI32 / atomics / Vec::extend (assumed contracts), N3 sequentialisation, headroom preconditions, Verus+Z3, the vx extractor's closed list of normalisations (each application recorded in the evidence)."
 
 MANIFEST_TEXT = {
+    'C16': dict(
+        level="Unbounded proof: ChangeSet::add maps the abstract map m to m[id := add_spec(m[id], v)] when id is present (stored value first, new amount second: arrival order) and to m[id := v] otherwise, keeps mask and storage in step; clear empties it; the shared, by-value and lending join members are real trait impls verified against the Join contract (items are exactly the stored amounts; the consuming member removes exactly the fetched slot). With C06's iterator contract each accumulated amount is produced once. A fold lemma shows an unmentioned entity gets nothing.",
+        design_ref='DESIGN.md §5 C16', note=TB + ' dense storage conformance bounded (Kani).',
+        technique='Verus contracts on extracted changeset.rs functions and trait impls; abstract add_spec for AddAssign'),
     'C06': dict(
         level="Reduced unbounded proof: a trait-level contract for Join/LendJoin (open returns the member's mask and makes every member index fetchable; get returns the member's item and keeps other indices fetchable) against which (a) the real generic iterators JoinIter::{new,next} and JoinLendIter::{new,next,get,get_unchecked} are verified: keys are the ascending duplicate-free enumeration of the joined mask, one get per key, lookup by entity succeeds exactly for live members; and (b) the real member impls (&Storage, AntiStorage, MaybeJoin, Drain, &EntitiesRes, one-tuple BitAnd) are verified as trait impls, &mut Storage lending as free functions. Bit-set internals and macro-generated tuple impls are outside.",
         design_ref='DESIGN.md §5 C06', note=TB + ' hibitset iteration order/combination assumed; macro-generated impls not covered.',
